@@ -282,7 +282,7 @@ func cmdXform(args []string) int {
 	var cases []xformCase
 	id := 0
 	add := func(t, shape string, size, hint int, entropy string) {
-		cases = append(cases, xformCase{ID: id, T: t, Shape: shape, Size: size, Seed: *seed*1009 + int64(id), Hint: hint, Entropy: entropy, Jobs: pick(rnd, []uint{1, 1, 2, 4})})
+		cases = append(cases, xformCase{ID: id, T: t, Shape: shape, Size: size, Seed: *seed*1009 + int64(id), Hint: hint, Entropy: entropy, Jobs: pick(rnd, []uint{1, 1, 2, 3, 4, 5, 6, 7, 8})})
 		id++
 	}
 	// the grid: every transform x every shape x a rotating size, with and without hint
@@ -310,6 +310,13 @@ func cmdXform(args []string) int {
 					add(t, shape, size, hints[(ti+si)%len(hints)], ent)
 				}
 			}
+		}
+	}
+	// the multi-MiB regime of the BWT (several primary indexes, inverse split among helper goroutines): every job count 1..8
+	for j := uint(1); j <= 8; j++ {
+		if *thorough || j == 3 || j == 7 {
+			cases = append(cases, xformCase{ID: id, T: "BWT", Shape: "text", Size: 4<<20 + 4096*int(j), Seed: *seed*1009 + int64(id), Hint: -1, Entropy: "NONE", Jobs: j})
+			id++
 		}
 	}
 	// random single transforms and chains (sequence level)
